@@ -167,10 +167,17 @@ def assocKeyOf (keysTbl : List String) : Option Node → String
     | none => ""
   | _ => ""
 
+/-- `strings.Split(s, ",")`, structurally (kernel-evaluable) -/
+def splitComma (s : String) : List String :=
+  let rec go : List Char → List Char → List String
+    | [], cur => [String.ofList cur.reverse]
+    | c :: cs, cur => if c = ',' then String.ofList cur.reverse :: go cs [] else go cs (c :: cur)
+  go s.toList []
+
 /-- `schema.IsAssociative` -/
 def isAssociative (keysTbl : List String) (si : Option SchInfo) (srcs : Sources) (infer : Bool) : Bool :=
   match si with
-  | some i => (i.strategy.splitOn ",").contains "merge"
+  | some i => (splitComma i.strategy).contains "merge"
   | none => infer && srcs.any fun s => match s with
       | some n => !n.isNull && assocKeyOf keysTbl (some n) ≠ ""
       | none => false
